@@ -94,8 +94,8 @@ func methodsOf(c *report.Ctx, pkg, name string) []*ssa.Function {
 	for i := 0; i < n.NumMethods(); i++ {
 		m := n.Method(i)
 		f := c.P.Prog.FuncValue(m)
-		if f != nil && len(f.Blocks) > 0 {
-			out = append(out, f)
+		if f != nil && len(f.Blocks) > 0 && !c.P.Absorbed[f] {
+			out = append(out, f) // (helpers absorbed into their callers by the normal form are seen there)
 		}
 	}
 	sort.Slice(out, func(i, j int) bool { return out[i].Name() < out[j].Name() })
